@@ -11,64 +11,6 @@ pub trait BitSetLike {
 impl BitSetLike for BitSet { spec fn bview(&self) -> Set<u32> { self@ } }
 impl<'a> BitSetLike for &'a BitSet { spec fn bview(&self) -> Set<u32> { (**self)@ } }
 
-pub trait UnprotectedStorage<T>: Sized {
-    // abstract content: which indices hold a value, and which
-    spec fn has(&self, id: Index) -> bool;
-    spec fn val(&self, id: Index) -> T;
-    // change-tracking effect (empty for plain kinds): the events written so far, and what each raw operation appends
-    spec fn log(&self) -> Seq<ComponentEvent>;
-    spec fn ev_insert(&self, id: Index) -> Seq<ComponentEvent>;
-    spec fn ev_remove(&self, id: Index) -> Seq<ComponentEvent>;
-    spec fn ev_get_mut(&self, id: Index) -> Seq<ComponentEvent>;
-
-    unsafe fn clean<B>(&mut self, has: B)
-        where B: BitSetLike
-        requires forall|i: Index| has.bview().contains(i) <==> old(self).has(i),
-        ensures forall|i: Index| !final(self).has(i), final(self).log() == old(self).log(),
-            forall|j: Index| #![trigger final(self).ev_insert(j)] #![trigger final(self).ev_remove(j)] #![trigger final(self).ev_get_mut(j)] final(self).ev_insert(j) == old(self).ev_insert(j) && final(self).ev_remove(j) == old(self).ev_remove(j) && final(self).ev_get_mut(j) == old(self).ev_get_mut(j);
-
-    unsafe fn get(&self, id: Index) -> (r: &T)
-        requires self.has(id),
-        ensures *r == self.val(id);
-
-    unsafe fn get_mut(&mut self, id: Index) -> (r: &mut T)
-        requires old(self).has(id),
-        ensures
-            *r == old(self).val(id),
-            final(self).val(id) == *final(r),
-            forall|j: Index| #![trigger final(self).has(j)] final(self).has(j) == old(self).has(j),
-            forall|j: Index| #![trigger final(self).val(j)] j != id ==> final(self).val(j) == old(self).val(j),
-            final(self).log() == old(self).log() + old(self).ev_get_mut(id),
-            forall|j: Index| #![trigger final(self).ev_insert(j)] #![trigger final(self).ev_remove(j)] #![trigger final(self).ev_get_mut(j)] final(self).ev_insert(j) == old(self).ev_insert(j) && final(self).ev_remove(j) == old(self).ev_remove(j) && final(self).ev_get_mut(j) == old(self).ev_get_mut(j);
-
-    unsafe fn insert(&mut self, id: Index, value: T)
-        requires !old(self).has(id),
-        ensures
-            final(self).has(id), final(self).val(id) == value,
-            forall|j: Index| #![trigger final(self).has(j)] j != id ==> final(self).has(j) == old(self).has(j),
-            forall|j: Index| #![trigger final(self).val(j)] j != id ==> final(self).val(j) == old(self).val(j),
-            final(self).log() == old(self).log() + old(self).ev_insert(id),
-            forall|j: Index| #![trigger final(self).ev_insert(j)] #![trigger final(self).ev_remove(j)] #![trigger final(self).ev_get_mut(j)] final(self).ev_insert(j) == old(self).ev_insert(j) && final(self).ev_remove(j) == old(self).ev_remove(j) && final(self).ev_get_mut(j) == old(self).ev_get_mut(j);
-
-    unsafe fn remove(&mut self, id: Index) -> (r: T)
-        requires old(self).has(id),
-        ensures
-            r == old(self).val(id), !final(self).has(id),
-            forall|j: Index| #![trigger final(self).has(j)] j != id ==> final(self).has(j) == old(self).has(j),
-            forall|j: Index| #![trigger final(self).val(j)] j != id ==> final(self).val(j) == old(self).val(j),
-            final(self).log() == old(self).log() + old(self).ev_remove(id),
-            forall|j: Index| #![trigger final(self).ev_insert(j)] #![trigger final(self).ev_remove(j)] #![trigger final(self).ev_get_mut(j)] final(self).ev_insert(j) == old(self).ev_insert(j) && final(self).ev_remove(j) == old(self).ev_remove(j) && final(self).ev_get_mut(j) == old(self).ev_get_mut(j);
-
-    unsafe fn drop(&mut self, id: Index)
-        requires old(self).has(id),
-        ensures
-            !final(self).has(id),
-            forall|j: Index| #![trigger final(self).has(j)] j != id ==> final(self).has(j) == old(self).has(j),
-            forall|j: Index| #![trigger final(self).val(j)] j != id ==> final(self).val(j) == old(self).val(j),
-            final(self).log() == old(self).log() + old(self).ev_remove(id),
-            forall|j: Index| #![trigger final(self).ev_insert(j)] #![trigger final(self).ev_remove(j)] #![trigger final(self).ev_get_mut(j)] final(self).ev_insert(j) == old(self).ev_insert(j) && final(self).ev_remove(j) == old(self).ev_remove(j) && final(self).ev_get_mut(j) == old(self).ev_get_mut(j);
-}
-
 pub open spec fn same_has<T, S: UnprotectedStorage<T>>(o: &S, n: &S) -> bool {
     forall|j: Index| #![trigger n.has(j)] n.has(j) == o.has(j)
 }
